@@ -85,6 +85,15 @@ def run(res: Results, idx: Index, tier: str) -> None:
                     return True
                 if isinstance(y, ast.Call) and (call_name(y) or "") in ("type", "isinstance", "bool", "len", "hash") and y is elt:
                     return True
+                # a renaming table (`slots.setdefault(str(d), f"s{len(slots)}")`) that is created anew for every argument maps
+                # symbols of DIFFERENT arguments to the same token: (B,4),(B,4) and (B,4),(N,4) get one key
+                tab = None
+                if isinstance(y, ast.Call) and isinstance(y.func, ast.Attribute) and y.func.attr in ("setdefault", "get") and isinstance(y.func.value, ast.Name):
+                    tab = y.func.value.id
+                elif isinstance(y, ast.Subscript) and isinstance(y.value, ast.Name) and y.value.id not in tn and not isinstance(y.slice, (ast.Constant, ast.Slice)):
+                    tab = y.value.id
+                if tab is not None and any(any(p_ is lp for p_ in parents(d.stmt)) for d in du.defs.get(tab, [])):
+                    return True
             return False
 
         def _unreduced(x: ast.AST) -> bool:
